@@ -69,6 +69,22 @@ def _m2():
     return cfg
 
 
+def _m2t():
+    """As M2, but trait t1 is not listed in /traits: a new master learns its
+    code from the server records only, so the order in which load_model reads
+    servers and instances matters."""
+    cfg = _m2()
+    cfg['traits'] = ['t2']
+    cfg['events'] = mastercfg.ev(
+        ('app+', 'pl'), ('app+', 't1'), ('app-', 0),
+        ('alloc', 2), ('alloc', 0),
+        ('srv', 's0', 1), ('srv', 's0', 0),
+        ('pres-', 's1'), ('pres+', 's1', 0),
+        ('noop',), ('restart',),
+    )
+    return cfg
+
+
 def _m8():
     """Leases next to the reboot date: s0 has been up for 19.5 days, so a
     one-day lease granted now still fits, but not half a day later."""
@@ -96,8 +112,10 @@ def _m8():
 
 def configs(ctx):
     if ctx.quick:
-        return [('M1', _m1(), 3, 1), ('M2', _m2(), 3, 0), ('M8', _m8(), 4, 0)]
-    return [('M1', _m1(), 5, 1), ('M2', _m2(), 5, 1), ('M8', _m8(), 7, 0)]
+        return [('M1', _m1(), 3, 1), ('M2', _m2(), 3, 0),
+                ('M2t', _m2t(), 3, 0), ('M8', _m8(), 4, 0)]
+    return [('M1', _m1(), 5, 1), ('M2', _m2(), 5, 1), ('M2t', _m2t(), 5, 1),
+            ('M8', _m8(), 7, 0)]
 
 
 RULE = ('BFS over World-B histories (a cycle after each event); at every '
